@@ -56,6 +56,13 @@ M = [
  ("m64-config-update-replaced", "leader.go", "			if u.config == nil {\n				u.config = pending.config\n			}", "			_ = pending", "C17"),
  ("m65-snapshot-send-error-ignored", "replication.go", "			if err := r.sendInstallSnapReq(c, req); err != nil {\n				return err\n			}\n			continue", "			if err := r.sendInstallSnapReq(c, req); err == nil {\n				continue\n			}", "C15"),
  ("m66-round-keeps-end-time", "changeconfig.go", "	r.Ordinal, r.Start, r.End, r.LastIndex = r.Ordinal+1, time.Now(), time.Time{}, lastIndex", "	r.Ordinal, r.Start, r.LastIndex = r.Ordinal+1, time.Now(), lastIndex", "C11"),
+ ("m67-removed-replication-not-awaited", "config.go", "			<-repl.done\n", "", "C15"),
+ ("m68-shutdown-waits-for-serve-only", "raft.go", "	if atomic.LoadInt32(&r.served) == 0 {\n		// never served (a Serve that comes now returns at once): there is\n		// nothing to wait for\n		return nil\n	}\n", "", "C15"),
+ ("m69-listen-error-panics", "raft.go", "	lr, err := net.Listen(\"tcp\", addr)\n	if err != nil {\n		return err\n	}", "	lr, err := net.Listen(\"tcp\", addr)\n	if err != nil {\n		panic(err)\n	}", "C15"),
+ ("m70-wait-stable-result-is-live", "changeconfig.go", "		t.reply(l.configs.Latest.clone()) // the caller may edit what it gets", "		t.reply(l.configs.Latest)", "C08"),
+ ("m71-any-action-byte-accepted", "config.go", "	if n.Action > ForceRemove {\n		return fmt.Errorf(\"raft.Config: unknown action %d\", uint8(n.Action))\n	}\n", "", "C15"),
+ ("m72-bootstrap-sets-term-one", "storage.go", "	if s.term < 1 {\n		s.setTerm(1)\n	}", "	s.setTerm(1)", "C15"),
+ ("m73-timer-only-for-electable", "follower.go", "		f.electionAborted = false\n	}\n	// a node that cannot start an election needs the timer too:\n	// its expiry is what makes the node forget a leader that has\n	// gone silent, without which it refuses every vote request\n	f.timer.reset(f.rtime.duration(f.hbTimeout))", "		f.electionAborted = false\n		f.timer.reset(f.rtime.duration(f.hbTimeout))\n	}", "C17"),
  ("m38-swap-fields", "messages.go", "	if req.lastLogIndex, err = readUint64(r); err != nil {\n		return err\n	}\n	if req.lastLogTerm, err = readUint64(r); err != nil {", "	if req.lastLogTerm, err = readUint64(r); err != nil {\n		return err\n	}\n	if req.lastLogIndex, err = readUint64(r); err != nil {", "C18"),
  ("m40-commit-regress", "rpc.go", "		term == req.term && // don't commit any entry, until leader has committed an entry with his term\n		index > r.commitIndex // haven't we committed yet", "		term == req.term // don't commit any entry, until leader has committed an entry with his term", "C19"),
  ("m41-identity-and", "rpc.go", "		if r.cid != req.cid || r.nid != req.nid {", "		if r.cid != req.cid && r.nid != req.nid {", "C20"),
